@@ -59,7 +59,10 @@ META = {
              '(one class used through its own connection and 2..4 further connection objects -- file-based SQLite databases created one after the other in the '
              'same thread, in-memory ones -- holding different rows under the same names and ids; interleaved inserts / updates / deletes; select / orderBy with '
              'list and tuple / reversed / selectBy / count / distinct count / sum / min / max / avg / byName / getOne with connection=c and through '
-             '.connection(c) against the rows read from c\'s file with a private sqlite3 connection); seeded random after a '
+             '.connection(c) against the rows read from c\'s file with a private sqlite3 connection); a special-configurations stream (selects over an InheritableSQLObject hierarchy iterated in fetchmany batches of 1..5 rows via '
+             'InheritableIteration.defaultArraySize; selects whose second table comes in through join=LEFTJOINOn/INNERJOINOn, plain and DISTINCT, count() vs '
+             'len(list) vs the fanned-out rows; selectBy(<fk>=key) / <fk>ID / q.<fk>ID / unique-index get for a foreign key to a string-keyed class with '
+             'number-like keys such as "007"); seeded random after a '
              'hand-written corpus; distinct = distinct (table contents, query); non-trivial = the query has a filter, an order, distinct, '
              'an aggregate or a lookup'),
     'trusted': ['reference SQL semantics in Model/Query.lean (three-valued logic, NULLs first, aggregate conventions, DISTINCT) — '
@@ -2089,7 +2092,7 @@ def sp_joinarg(sc):
                 for dist in (False, True, 'method'):
                     join = J(None, B, B.q.authorID == A.q.id)
                     clause = None if fv is None else (A.q.a == fv)
-                    sel = A.select(clause, join=join, distinct=(dist is True), orderBy='id')
+                    sel = A.select(clause, join=join, distinct=(dist is True), orderBy=A.q.id)
                     if dist == 'method':
                         sel = sel.distinct()
                     want = sorted(set(fan)) if dist else fan
